@@ -224,6 +224,19 @@ theorem load_order (fs fs' : List File) (hp : fs.Perm fs') (hd : distinctFragmen
       apply lookupLast_files_perm ((hL.trans hp).trans hL'.symm)
       exact (hL.map _).nodup_iff.mpr hd
 
+/-! ### the derived state follows the ODXLINK map -/
+
+/-- **load-order independence of the derived state.**  The communication parameters and the inherited objects
+    `refresh()` computes for a layer are functions of the ODXLINK map (and of what the layer elements describe), so
+    they are the same for every order of the files -/
+theorem effective_order (fs fs' : List File) (hp : fs.Perm fs') (hd : distinctFragments fs) (db db' : Db)
+    (h : processAll fs = .ok db) (h' : processAll fs' = .ok db') (raw : Nat → Option RawLayer) (fuel : Nat)
+    (k : String × String) :
+    effectiveComparams db raw fuel k = effectiveComparams db' raw fuel k ∧
+    effectiveObjects db raw fuel k = effectiveObjects db' raw fuel k := by
+  have hl : linkLookup db = linkLookup db' := funext ((load_order fs fs' hp hd).2 db db' h h').2.2.2.2
+  simp only [effectiveComparams, effectiveObjects, hl, and_self]
+
 /-! ### strict mode is needed -/
 
 /-- in non-strict mode (`odxraise` continues) the resulting `model_version` is the LAST file's: order dependent -/
@@ -248,5 +261,37 @@ example : processAll exFiles.reverse = .ok ⟨[exFiles[0]], [exFiles[1]], [exFil
 example : (processAll exFiles).toOption.map (linkLookup · ("DLC", "x")) = some (some 7) := by decide
 example : (processAll exFiles.reverse).toOption.map (linkLookup · ("SPEC", "x")) = some (some 4) := by decide
 example : processAll (⟨"OLD", .spec, true, 2, []⟩ :: exFiles) = .error () := by rfl
+
+/-! ### non-vacuity of `effective_order`: a base variant in one document derived from a protocol in another one -/
+
+/-- two containers: `P` holds the protocol `p` (object 1), `V` the base variant `v` (object 2) and the ECU variant `e` (object 3) -/
+def exLayerFiles : List File :=
+  [⟨"P", .dlc, false, 3, [("p", 1)]⟩, ⟨"V", .dlc, false, 3, [("v", 2), ("e", 3)]⟩]
+
+def exCp (tag : Nat) (id : String) (proto : Option String) : Comparam.Inst := ⟨tag, id, proto, .str "", .simple id ""⟩
+
+/-- the protocol defines two communication parameters and two objects; the base variant (PARENT-REF into document `P`)
+    overrides one of each and adds one of each; the ECU variant (PARENT-REF into its own document) excludes object 11 -/
+def exRaw : Nat → Option RawLayer
+  | 1 => some ⟨.protocol, [exCp 10 "baud" (some "p"), exCp 11 "id" none], [⟨10, 1⟩, ⟨11, 1⟩], []⟩
+  | 2 => some ⟨.baseVariant, [exCp 20 "baud" (some "p"), exCp 21 "time" none], [⟨10, 2⟩, ⟨12, 2⟩], [(("P", "p"), [])]⟩
+  | 3 => some ⟨.ecuVariant, [], [], [(("V", "v"), [11])]⟩
+  | _ => none
+
+def exTags (db : Except Unit Db) (k : String × String) : Option (List Nat) :=
+  db.toOption.bind fun db => (effectiveComparams db exRaw 4 k).map (·.map (·.tag))
+
+def exObjs (db : Except Unit Db) (k : String × String) : Option (Except Inherit.Err (List Inherit.Obj)) :=
+  db.toOption.bind fun db => effectiveObjects db exRaw 4 k
+
+example : distinctFragments exLayerFiles := by unfold distinctFragments; decide
+-- parent's document first and child's document first: the same communication parameters and objects
+example : exTags (processAll exLayerFiles) ("V", "e") = some [20, 11, 21] := by decide
+example : exTags (processAll exLayerFiles.reverse) ("V", "e") = some [20, 11, 21] := by decide
+example : exObjs (processAll exLayerFiles) ("V", "e") = some (.ok [⟨10, 2⟩, ⟨12, 2⟩]) := by decide
+example : exObjs (processAll exLayerFiles.reverse) ("V", "e") = some (.ok [⟨10, 2⟩, ⟨12, 2⟩]) := by decide
+example : exObjs (processAll exLayerFiles) ("V", "v") = some (.ok [⟨10, 2⟩, ⟨11, 1⟩, ⟨12, 2⟩]) := by decide
+-- the parent's document missing: the PARENT-REF does not resolve
+example : exTags (processAll exLayerFiles.tail) ("V", "v") = none := by decide
 
 end OdxVerif.Pdx
